@@ -126,7 +126,8 @@ def resolve_special(it, callee):
         eqc = '<%s as std::cmp::PartialEq%s>::eq' % (m.group(1), m.group(2) or '')
         return ('model', lambda it, a, b: znot(it.call(eqc, [a, b])))
     m = re.fullmatch(r'<(.*) as std::string::ToString>::to_string', callee)
-    if m and m.group(1) not in ('str', '&str', 'std::string::String', 'char') and m.group(1) not in INT_RANGE and m.group(1).lstrip('&') not in INT_RANGE:
+    if m and m.group(1) not in ('str', '&str', 'std::string::String', 'char') and m.group(1) not in INT_RANGE and m.group(1).lstrip('&') not in INT_RANGE \
+            and not any((k, 'ToString', 'to_string') in it.impls for k in (m.group(1), m.group(1).split('::')[-1])):
         ty = m.group(1)
         return ('model', lambda it, r: SStr(display_of(it, ty, r)))
     return None
@@ -275,7 +276,9 @@ def display_of(it, ty, r):
         if (tkey, 'Display', 'fmt') in it.impls: key = (tkey, 'Display', 'fmt')
     if key:
         fm = Formatter()
-        it.exec_fn(it.fns[it.impls[key]], [r if isinstance(r, Ref) else Ref(Box_(r)), Ref(Box_(fm))])
+        rr = r if isinstance(r, Ref) else Ref(Box_(r))
+        while isinstance(rr.get(), Ref): rr = rr.get()
+        it.exec_fn(it.fns[it.impls[key]], [rr, Ref(Box_(fm))])
         return fm.out
     raise Unsupported('Display for ' + ty)
 class F64Text:
@@ -523,7 +526,8 @@ def str_bytes(it, s):
     """UTF-8 encoding; a symbolic code point forks on its length class and is encoded arithmetically"""
     out = []
     for c in s.chars:
-        if isinstance(c, int): out.extend(chr(c).encode('utf-8', 'surrogatepass'))
+        if hasattr(c, 'opaque_bytes'): out.extend(c.opaque_bytes())
+        elif isinstance(c, int): out.extend(chr(c).encode('utf-8', 'surrogatepass'))
         elif B(it, c < 0x80): out.append(c)
         elif B(it, c < 0x800):
             q, r = it.ctx.divmod(c, 64); out += [0xC0 + q, 0x80 + r]
